@@ -111,6 +111,75 @@ def shard_index(args):
     return acc.export()
 
 
+def shard_exotic(args):
+    """Values just outside 'small' (5..33 runs, run lengths up to 32, unusual characters): every index and every slice whose bounds lie
+    at / next to a run boundary, the ends, or their negative twins; +, * and join with themselves."""
+    tier, seed, idx = args
+    acc = Acc(seed=seed)
+    specs = C.exotic_specs()
+    for si in range(idx, len(specs), 16):
+        spec = specs[si]
+        f = C.build(spec)
+        fc = C.spec_cells(spec)
+        text = "".join(c for c, _ in fc)
+        n = len(fc)
+        snap = C.snapshot(f)
+        pts = C.boundary_points(spec)
+        shown = C.show_spec(spec)
+        if C.cells(f) != fc or len(f) != n or f.s != text:
+            acc.failure("C06:len_or_text", {"f": shown}, "")
+            continue
+        for j in pts:
+            case = {"f": shown, "op": "index", "i": j}
+            acc.case(True, key=("xi", si, j), sample=case)
+            acc.transitions += 1
+            try:
+                want = [fc[j]]
+            except IndexError:
+                want = IndexError
+            try:
+                got = C.cells(f[j])
+            except IndexError:
+                got = IndexError
+            except Exception as ex:  # noqa
+                got = repr(ex)
+            if got != want:
+                acc.failure("C06:index_result", case, "got %r expected %r" % (got, want))
+        for a in pts + [None]:
+            for b in pts + [None]:
+                case = {"f": shown, "op": "slice", "a": a, "b": b}
+                acc.case(True, key=("xs", si, a, b), sample=case)
+                acc.transitions += 1
+                try:
+                    r = f[a:b]
+                    got = C.cells(r)
+                except Exception as ex:  # noqa
+                    acc.failure("C06:slice_raises:" + type(ex).__name__, case, repr(ex))
+                    continue
+                if got != fc[a:b] or r.s != text[a:b] or len(r) != len(fc[a:b]):
+                    acc.failure("C06:slice_result", case, "got %r expected %r" % (got, fc[a:b]))
+        for label, fn, want in (
+            ("f+f", lambda: f + f, fc + fc), ("f*3", lambda: f * 3, fc * 3), ("'<'+f+'>'", lambda: "<" + f + ">", [("<", ())] + fc + [(">", ())]),
+            ("f.join([f,'k',f])", lambda: f.join([f, "k", f]), fc + fc + [("k", ())] + fc + fc),
+            ("f.join(generator)", lambda: f.join(x for x in ["p", f]), [("p", ())] + fc + fc),
+            ("f.join(tuple)", lambda: f.join(("p", "q")), [("p", ())] + fc + [("q", ())]),
+        ):
+            case = {"f": shown, "op": label}
+            acc.case(True, key=("xo", si, label), sample=case)
+            acc.transitions += 1
+            try:
+                r = fn()
+                got = C.cells(r)
+            except Exception as ex:  # noqa
+                acc.failure("C06:op_raises:" + type(ex).__name__, case, repr(ex))
+                continue
+            if got != want or len(r) != len(want) or r.s != "".join(c for c, _ in want):
+                acc.failure("C06:op_result", case, "got %r" % (got[:40],))
+        if C.snapshot(f) != snap:
+            acc.failure("C06:operand_changed", {"f": shown}, "")
+    return acc.export()
+
+
 def shard_add(args):
     tier, seed, idx = args
     acc = Acc(seed=seed)
@@ -219,6 +288,8 @@ def run(ctx):
     rep = Report()
     for d in ctx.pmap(shard_index, [(ctx.tier, ctx.seed, i) for i in range(NSHARDS)]):
         rep.merge(d, "index_slice_mul")
+    for d in ctx.pmap(shard_exotic, [(ctx.tier, ctx.seed, i) for i in range(16)]):
+        rep.merge(d, "long_and_exotic_values")
     for d in ctx.pmap(shard_add, [(ctx.tier, ctx.seed, i) for i in range(NSHARDS)]):
         rep.merge(d, "add")
     for d in ctx.pmap(shard_join, [(ctx.tier, ctx.seed, i) for i in range(16)]):
